@@ -56,7 +56,11 @@ pub fn layout(tokens: &[String], kind: usize, rng: &mut Rng) -> String {
   s
 }
 
-fn parse(scope: &Scope, text: &str) -> J {
+fn parse(_shared: &Scope, text: &str) -> J {
+  // every parse gets a parsing scope of its own: a parse that FAILS may leave contexts it pushed behind (only a
+  // successful parse restores the scope - that is C13's matter), and such leftovers must not reach the next case
+  let scope = parsing_scope();
+  let scope = &scope;
   crate::util::QUIET.with(|q| q.set(true));
   let r = std::panic::catch_unwind(std::panic::AssertUnwindSafe(|| dmntk_feel_parser::parse_expression(scope, text, false)));
   crate::util::QUIET.with(|q| q.set(false));
